@@ -133,7 +133,9 @@ structure DddmpBodyWF (f : DddmpFile) (i2p levels : List (Tok × Int)) (nv : Int
 the numbering of the nodes is arbitrary -/
 def DddmpFile.WF (f : DddmpFile) : Prop :=
   ∃ i2p levels roots nv, dddmpHeader f = .ok (i2p, levels, roots) ∧ f.nvars = some nv ∧
-    DddmpBodyWF f i2p levels nv
+    DddmpBodyWF f i2p levels nv ∧
+    -- every root entry is the (signed) number of a listed node
+    ∀ ρ ∈ roots, ∃ x ∈ f.nodes, x.u = (ρ.natAbs : Int)
 
 /-! ### unfolding `evalFile` on well-formed files -/
 
@@ -896,7 +898,7 @@ theorem dddmpLoad_nodes_of_foaSpec (H : FoaSpec) (f : DddmpFile) (hf : f.WF) :
     ∃ m umap, loadDddmpU f = .ok (m, umap) ∧ Inv m ∧
       ∀ x ∈ f.nodes, ∃ r, dictGet umap x.u = some r ∧ m.tbl.Mem r ∧
         ∀ α, den m.tbl r (asgOf m.tbl α) = evalFile f α x.u := by
-  obtain ⟨i2p, levels, roots, nv, hh, hnv, hw⟩ := hf
+  obtain ⟨i2p, levels, roots, nv, hh, hnv, hw, _⟩ := hf
   have hT := dddmpHeader_T hh hnv
   have hbody := dddmpBody_ok hw hT
   have hkeys : (levels.map (·.1)).Nodup := by
@@ -965,5 +967,113 @@ theorem dddmpLoad_nodes_of_foaSpec (H : FoaSpec) (f : DddmpFile) (hf : f.WF) :
       intro α
       rw [hasg, hev]
       exact hden α
+
+/-! ### the roots -/
+
+/-- on success `roots` holds the numbers written in the file, as they are -/
+theorem loadDddmpU_roots {f : DddmpFile} {m : Mgr} {umap : List (Int × Int)}
+    (h : loadDddmpU f = .ok (m, umap)) :
+    ∃ i2p levels roots, dddmpHeader f = .ok (i2p, levels, roots) ∧ m.roots = roots := by
+  unfold loadDddmpU at h
+  split at h
+  · cases h
+  · next i2p levels roots hh =>
+    refine ⟨i2p, levels, roots, hh, ?_⟩
+    split at h
+    · cases h
+    · split at h
+      · cases h
+      · split at h
+        · cases h
+        · split at h
+          · cases h
+          · simp only [Except.ok.injEq, Prod.mk.injEq] at h
+            rw [← h.1]
+
+/-- the roots of `m` denote, by variable name and as a set of functions, the root entries
+of the file -/
+def DddmpRootsDenote (f : DddmpFile) (m : Mgr) : Prop :=
+  (∀ ρ ∈ f.rootids.getD [], ∃ r ∈ m.roots, m.tbl.Mem r ∧
+      ∀ α, den m.tbl r (asgOf m.tbl α) = evalFile f α ρ) ∧
+  (∀ r ∈ m.roots, ∃ ρ ∈ f.rootids.getD [],
+      ∀ α, den m.tbl r (asgOf m.tbl α) = evalFile f α ρ)
+
+/-- what is proved of the current code: everything about the node numbers, and the root
+entries *translated through `umap` with their sign* denote the right functions — but
+`roots` itself holds the untranslated numbers of the file -/
+theorem dddmpLoad_spec_partial_of_foaSpec (H : FoaSpec) (f : DddmpFile) (hf : f.WF) :
+    ∃ m umap, loadDddmpU f = .ok (m, umap) ∧ loadDddmp f = .ok m ∧ Inv m ∧
+      (∀ x ∈ f.nodes, ∃ r, dictGet umap x.u = some r ∧ m.tbl.Mem r ∧
+        ∀ α, den m.tbl r (asgOf m.tbl α) = evalFile f α x.u) ∧
+      (∀ ρ ∈ f.rootids.getD [], ∃ r, dictGet umap (ρ.natAbs : Int) = some r ∧
+        m.tbl.Mem (if ρ > 0 then r else -r) ∧
+        ∀ α, den m.tbl (if ρ > 0 then r else -r) (asgOf m.tbl α) = evalFile f α ρ) ∧
+      m.roots = dedupInts (f.rootids.getD []) := by
+  obtain ⟨m, umap, hload, hinv, hnodes⟩ := dddmpLoad_nodes_of_foaSpec H f hf
+  obtain ⟨i2p, levels, roots, nv, hh, hnv, hw, hroots⟩ := hf
+  obtain ⟨_, _, rootids, _, _, hrid, _, _, hrd⟩ := dddmpHeader_inv hh
+  obtain ⟨_, _, roots', hh', hmr⟩ := loadDddmpU_roots hload
+  rw [hh] at hh'
+  simp only [Except.ok.injEq, Prod.mk.injEq] at hh'
+  obtain ⟨_, _, rfl⟩ := hh'
+  refine ⟨m, umap, hload, by simp [loadDddmp, hload, Except.map], hinv, hnodes, ?_, ?_⟩
+  · intro ρ hρ
+    rw [hrid] at hρ
+    simp only [Option.getD_some] at hρ
+    have hρ' : ρ ∈ roots := by rw [hrd]; exact (mem_dedupInts _ _).mpr hρ
+    obtain ⟨x, hx, hxu⟩ := hroots ρ hρ'
+    obtain ⟨r, hr, hm, hden⟩ := hnodes x hx
+    refine ⟨r, by rw [← hxu]; exact hr, ?_, ?_⟩
+    · split
+      · exact hm
+      · exact mem_neg hm
+    · intro α
+      have hev : ∀ y, evalFile f α y = evalFileF i2p levels f.nodes α (nv + 2).toNat y := by
+        intro y; simp [evalFile, hh, hnv]
+      have hx0 : 0 < x.u := by
+        rcases hw.line x hx with ht | hn
+        · rw [ht.1]; omega
+        · have := hn.1; omega
+      have hev2 : evalFile f α ρ = ((decide (ρ < 0)) ^^ evalFile f α x.u) := by
+        rw [hev, hev, evalFileF_abs, hxu]
+      rw [hev2, ← hden α]
+      split
+      · next hpos =>
+        have : ¬ (ρ < 0) := by omega
+        simp [this]
+      · next hpos =>
+        have : ρ < 0 := by omega
+        rw [den_neg _ hinv.wf.toWF _ _ hm]
+        simp [this]
+  · rw [hmr, hrd, hrid]; rfl
+
+/-- the repaired loader (roots translated through `umap`, with sign) satisfies the full
+property: its `roots` denote exactly the functions of the root entries of the file -/
+theorem dddmpLoadFixed_roots_of_foaSpec (H : FoaSpec) (f : DddmpFile) (hf : f.WF) :
+    ∃ m, loadDddmpFixed f = .ok m ∧ Inv m ∧ DddmpRootsDenote f m := by
+  obtain ⟨m, umap, hload, _, hinv, _, hroots, hmr⟩ := dddmpLoad_spec_partial_of_foaSpec H f hf
+  let g : Int → Int := fun ρ =>
+    if ρ > 0 then (dictGet umap (ρ.natAbs : Int)).getD 0 else -(dictGet umap (ρ.natAbs : Int)).getD 0
+  have hg : ∀ ρ ∈ f.rootids.getD [], dddmpRootItem umap ρ = .ok (g ρ) ∧ m.tbl.Mem (g ρ) ∧
+      ∀ α, den m.tbl (g ρ) (asgOf m.tbl α) = evalFile f α ρ := by
+    intro ρ hρ
+    obtain ⟨r, hr, hm, hden⟩ := hroots ρ hρ
+    have e : g ρ = if ρ > 0 then r else -r := by simp [g, hr]
+    rw [e]
+    refine ⟨?_, hm, hden⟩
+    simp [dddmpRootItem, hr]
+  have hmem : ∀ ρ, ρ ∈ m.roots ↔ ρ ∈ f.rootids.getD [] := by
+    intro ρ; rw [hmr]; exact mem_dedupInts _ _
+  have hmap : m.roots.mapM (dddmpRootItem umap) = .ok (m.roots.map g) :=
+    mapM_ok _ _ _ (fun ρ hρ => (hg ρ ((hmem ρ).mp hρ)).1)
+  refine ⟨{ m with roots := dedupInts (m.roots.map g) }, ?_, ?_, ?_, ?_⟩
+  · simp [loadDddmpFixed, loadDddmpFixedU, hload, hmap, Except.map]
+  · exact ⟨hinv.wf, hinv.pred, hinv.freeGe, hinv.free, hinv.refOne, hinv.refDom, hinv.cache⟩
+  · intro ρ hρ
+    refine ⟨g ρ, ?_, (hg ρ hρ).2.1, (hg ρ hρ).2.2⟩
+    exact (mem_dedupInts _ _).mpr (List.mem_map.mpr ⟨ρ, (hmem ρ).mpr hρ, rfl⟩)
+  · intro r hr
+    obtain ⟨ρ, hρ, rfl⟩ := List.mem_map.mp ((mem_dedupInts _ _).mp hr)
+    exact ⟨ρ, (hmem ρ).mp hρ, (hg ρ ((hmem ρ).mp hρ)).2.2⟩
 
 end DD
